@@ -35,7 +35,7 @@ Qed.
 
 Lemma pyslice_to (l : list A) b : 0 <= b -> pyslice l None (Some b) = take l b.
 Proof.
-  intros. unfold pyslice, clampidx, slice, take. pose proof (len_nonneg l).
+  intros. unfold pyslice, clampidx; rewrite ?slice_raw, ?take_raw; unfold slice0, take0. pose proof (len_nonneg l).
   destruct (b <? 0) eqn:?; try lia. simpl skipn. rewrite Z.sub_0_r.
   destruct (Z.le_gt_cases (len l) b).
   - rewrite Z.min_r by lia. unfold len in *. rewrite !firstn_all2 by lia. reflexivity.
@@ -70,7 +70,7 @@ Definition ends_with (s p : list Z) : bool :=
 
 Lemma starts_with_app p s : starts_with (p ++ s) p = true.
 Proof.
-  unfold starts_with, take, len. rewrite Nat2Z.id.
+  unfold starts_with, len; rewrite ?take_raw; unfold take0. rewrite Nat2Z.id.
   rewrite firstn_app, Nat.sub_diag, firstn_all. simpl. rewrite app_nil_r. now apply list_eqb_spec.
 Qed.
 
@@ -78,12 +78,12 @@ Lemma ends_with_app s p : ends_with (s ++ p) p = true.
 Proof.
   unfold ends_with. rewrite len_app. pose proof (len_nonneg s). pose proof (len_nonneg p).
   apply andb_true_iff; split; [lia|].
-  apply list_eqb_spec. unfold drop. replace (len s + len p - len p) with (len s) by lia.
+  apply list_eqb_spec. rewrite ?drop_raw; unfold drop0. replace (len s + len p - len p) with (len s) by lia.
   unfold len. rewrite Nat2Z.id. rewrite skipn_app, Nat.sub_diag, skipn_all. reflexivity.
 Qed.
 
 Lemma ends_with_split s p : ends_with s p = true -> s = take s (len s - len p) ++ p.
 Proof.
   unfold ends_with. intros H. apply andb_true_iff in H as [H1 H2].
-  apply list_eqb_spec in H2. rewrite <- H2 at 2. unfold take, drop. now rewrite firstn_skipn.
+  apply list_eqb_spec in H2. rewrite <- H2 at 2. rewrite ?take_raw, ?drop_raw; unfold take0, drop0. now rewrite firstn_skipn.
 Qed.
